@@ -4,7 +4,9 @@ def classify(sig, what):
     body = ' | '.join(parts[2:-1])
     if 'nondeterministic outcome' in sig:
         return 'ND1: the generator output for this target is not a function of its input: the same document sometimes yields code that builds and sometimes code that does not (map-iteration order inside the generator, see C07); observed e.g. on two-hop $ref chains (m.P == nil on a non-pointer alias) and on cli imports.'
-    if target == 'model':
+    if target == 'model' and not body.startswith('name:'):
+        if 'undefined' in msg: return 'M3: an enum on a schema nested two anonymous levels deep (items of items, values of a map inside an array/map, a property of an inline allOf member) is validated by calling m.validate<Name>ItemsEnum / ...ValueEnum / validate<Prop>Enum, a method the model template only emits for first-level properties, items and values: "undefined"; generate model exits 0 and the package does not compile (' + body + ').'
+        if 'redeclared' in msg: return 'M4: enum values made only of / differing only by punctuation ("<=", "a&b", ...) mangle to the same Go constant name: "redeclared"; generate model exits 0 and the package does not compile (' + body + ').'
         if 'invalid constant type' in msg: return 'M1: an enum on a string with format date/date-time (or another strfmt type) is generated as Go constants of a struct type (strfmt.Date): "invalid constant type"; generate model exits 0 and the package does not compile.'
         if 'mismatched types' in msg: return 'M2: a property reached through a two-hop $ref chain to a primitive alias is treated as nullable by the validation template (m.P == nil) although its Go type is a named non-pointer type: "mismatched types"; exits 0, does not compile.'
         return 'M?: generate model exits 0 but the generated package does not compile (' + msg + ') for ' + body
